@@ -2,7 +2,7 @@
    Statements only.
 
    Deb822Wrap.v transcribes Entry/Paragraph/Deb822::wrap_and_sort, rebuild_value and the control
-   wrappers of /repo over the tree model; [variant] says which of the six proposed repairs
+   wrappers of /repo over the tree model; [variant] says which of the eight repairs (six in /repo, C07-21 and C07-22 proposed)
    (proposed_fixes/C07-*.patch) are applied: [fixed] = all, [shipped] = none.  WrapSpec.v says what
    the reformatting does on the abstract layouts of Grammar.v/LiveDoc.v:
      rebuild_field / a_ws_field  one field   (the case analysis of rebuild_value)
@@ -12,7 +12,32 @@
    The quantifier: every well-formed document (Grammar.wf_doc: comments before/inside/after
    paragraphs, multi-line values, duplicate names, any blank-line layout, optional final newline),
    every indentation of at least one column or FieldNameLength, either empty-first-line setting,
-   every one-line limit, every pair of comparators that depend only on names and values. *)
+   every one-line limit, every pair of comparators that depend only on names and values.
+
+   WHAT THE STATEMENTS ARE COMPARED WITH (audit of cone-c07c).  All vocabulary of the statements is
+   in coq/model (WrapSpec.v, WrapSpecInst.v, ControlSpec.v, WrapTokSpec.v, XGrammar.v, XWrapSpec.v);
+   none of it is defined in a proof file.
+   * Against an INDEPENDENT specification: sections 1-10 and 15 (Grammar.v's documents: the layout
+     functions of WrapSpec.v -- rebuild_field, a_ws_items, a_ws_doc -- are written from the
+     documentation, not from the code; content as lists of pairs; the reader model for the re-read);
+     section 13 (the reader against XGrammar.v); of section 14: the re-read, indentation, empty-line
+     and termination clauses (XGrammar.v / XWrapSpec.v), C07_error_free_field (XWrapSpec.x_ws_field),
+     C07_error_free_content and C07_error_free_paragraph (grouping + the caller's comparators +
+     reported pairs only).
+   * RESTATING THE MODEL: sections 11-12 and the first clause of section 14 say "no panic, and the
+     result is entry_out / p_out / d_out" -- WrapTokSpec.v part B, closed forms that call
+     Deb822Wrap.rebuild_value; where comment lines end up for a document outside Grammar.v is
+     visible only there (and checked by the oracle).  "A second application returns the same tree"
+     is a statement about the model function itself.
+   * NOT theorems (streams + oracle only; docs/cones/C07.md "What remains"): a second application
+     to the tree RE-READ from the printed text (record field t2p); Deb822::wrap_and_sort WITHOUT a
+     paragraph function (wrap_and_sort_paragraph = None: std_ws always passes one);
+     formatters on documents outside Grammar.v; relationship fields outside C13's domain.
+   * Comparators: [cmp_consistent] (WrapSpec.v) asks only that a b and b a are not both Gt;
+     Vec::sort_by additionally requires a total order (transitivity) and may panic or return any
+     order without it.  The theorems hold for the model's stable insertion sort under the weaker
+     premise; that the model's sort IS the code's sort is the assumption "comparators are total
+     preorders" (c07.py assumptions), under which every stable sort gives the same result. *)
 From V.model Require Import Base Deb822Lex Deb822Parse Grammar Lossy LossySpec Deb822Edit LiveDoc Deb822Wrap WrapSpec ControlSpec XGrammar XWrapSpec.
 From V.model Require RelAcc RelGrammar RelWrap RelWrapSpec.
 From V.proofs Require Import LiveDocP Deb822WrapP Deb822WrapInstP ControlWrapP WrapTokP ParseTokP ParseImageP XWrapP.
@@ -276,9 +301,14 @@ Check C07_absorbing_formatter_idem : forall c psort pcmp esort ecmp g d,
   std_ws fixed c psort esort (Some (pure_fmt g)) (ltree_of l1) = Ok (ltree_of l1).
 Print Assumptions C07_absorbing_formatter_idem.
 
-Theorem C07_uploaders_absorbing : absorbing (fun _ v => fmt_uploaders v) /\ no_lead (fun _ v => fmt_uploaders v).
-Proof. exact (conj uploaders_absorbing uploaders_no_lead). Qed.
-Check C07_uploaders_absorbing : absorbing (fun _ v => fmt_uploaders v) /\ no_lead (fun _ v => fmt_uploaders v).
+(* the Uploaders arm of format_field as shipped (the streams' test formatter 'u') and with C07-21 *)
+Theorem C07_uploaders_absorbing :
+  (absorbing (fun _ v => fmt_uploaders v) /\ no_lead (fun _ v => fmt_uploaders v)) /\
+  (absorbing (fun _ v => fmt_uploaders_h v) /\ no_lead (fun _ v => fmt_uploaders_h v)).
+Proof. exact (conj (conj uploaders_absorbing uploaders_no_lead) (conj uploaders_h_absorbing uploaders_h_no_lead)). Qed.
+Check C07_uploaders_absorbing :
+  (absorbing (fun _ v => fmt_uploaders v) /\ no_lead (fun _ v => fmt_uploaders v)) /\
+  (absorbing (fun _ v => fmt_uploaders_h v) /\ no_lead (fun _ v => fmt_uploaders_h v)).
 Print Assumptions C07_uploaders_absorbing.
 
 (* a shaped output lexes (line by line) to the tokens of the value it is read as *)
@@ -310,10 +340,15 @@ Print Assumptions C07_comparators.
 
 (* 8. The control-file wrappers.  Control::wrap_and_sort IS the deb822-level reformatting in control
       order, without a field sort, with the control formatter (Uploaders: split at ',', trim, join
-      with ",\n"; the twelve relationship fields: the relations cone's formatter r; others: as
-      they are) -- so C07_formatter / C07_formatter_idem speak about it wherever ctl_fmt r is shaped.
-      The relations formatter is a parameter; when it panics (format_field unwraps the parse of a
-      value the relations reader rejects) so does the wrapper. *)
+      with ",\n" -- with ", " in front of a piece that starts with '#', C07-21 --; the twelve
+      relationship fields: the relations cone's formatter r; others: as they are) -- so
+      C07_formatter / C07_formatter_idem speak about it wherever ctl_fmt r is shaped.
+      The relations formatter is a parameter.  When the relations parser rejects the value
+      (Panic 20: the assert! of format_field) the shipped wrapper panics on an error-free deb822
+      document; with C07-22 the field is left as it is (C07_control_unparsable_relation_kept: for
+      every relationship field name and every value C13's model rejects, and the document of the
+      audit).  C07_uploaders_hash_piece: without C07-21 "Uploaders: A <a@x>, #B <b@x>" is printed with
+      "#B <b@x>" on a line of its own -- the object reports two lines, the text re-reads to one. *)
 Theorem C07_control : forall c r t,
   control_ws fixed (fun x => Ok (r x)) (c_ind c) (c_iel c) (c_mll c) t
   = std_ws fixed c (Some control_order) None (Some (pure_fmt (ctl_fmt r))) t.
@@ -324,11 +359,31 @@ Check C07_control : forall c r t,
 Print Assumptions C07_control.
 
 Theorem C07_control_unparsable_relation_panics :
-  control_ws fixed (fun _ => Panic 20) (Spaces 1) false None (tree_of WC.d_bad_relation) = Panic 20.
+  control_ws no_rel_keep (fun _ => Panic 20) (Spaces 1) false None (tree_of WC.d_bad_relation) = Panic 20.
 Proof. exact control_unparsable_relation_panics. Qed.
 Check C07_control_unparsable_relation_panics :
-  control_ws fixed (fun _ => Panic 20) (Spaces 1) false None (tree_of WC.d_bad_relation) = Panic 20.
+  control_ws no_rel_keep (fun _ => Panic 20) (Spaces 1) false None (tree_of WC.d_bad_relation) = Panic 20.
 Print Assumptions C07_control_unparsable_relation_panics.
+
+Theorem C07_control_unparsable_relation_kept :
+  (forall name v, str_eqb name Lit.k_Uploaders = false -> is_rel_field name = true ->
+     RelWrap.ctl_rel RelWrap.fixed v = Panic 20 -> real_format_field name v = Ok v) /\
+  control_ws fixed (fun _ => Panic 20) (Spaces 1) false None (tree_of WC.d_bad_relation) = Ok (tree_of WC.d_bad_relation).
+Proof. exact (conj real_ff_unparsable control_unparsable_relation_kept_ex). Qed.
+Check C07_control_unparsable_relation_kept :
+  (forall name v, str_eqb name Lit.k_Uploaders = false -> is_rel_field name = true ->
+     RelWrap.ctl_rel RelWrap.fixed v = Panic 20 -> real_format_field name v = Ok v) /\
+  control_ws fixed (fun _ => Panic 20) (Spaces 1) false None (tree_of WC.d_bad_relation) = Ok (tree_of WC.d_bad_relation).
+Print Assumptions C07_control_unparsable_relation_kept.
+
+Theorem C07_uploaders_hash_piece :
+  ctl_reports no_upl_hash WC.d_upl_hash = Ok (WC.upl_hash_reported, Ok WC.upl_hash_reread) /\
+  ctl_reports fixed WC.d_upl_hash = Ok (WC.upl_hash_kept, Ok WC.upl_hash_kept).
+Proof. exact uploaders_hash_piece. Qed.
+Check C07_uploaders_hash_piece :
+  ctl_reports no_upl_hash WC.d_upl_hash = Ok (WC.upl_hash_reported, Ok WC.upl_hash_reread) /\
+  ctl_reports fixed WC.d_upl_hash = Ok (WC.upl_hash_kept, Ok WC.upl_hash_kept).
+Print Assumptions C07_uploaders_hash_piece.
 
 (* 9. The control-file wrappers with the REAL relations branch (no parameter): format_field with
       C13's model of parse_relaxed(v, true) + Relations::wrap_and_sort + to_string in it
@@ -681,6 +736,27 @@ Check C07_error_free_full : forall s t ind iel mll psort esort, from_str s = Ok 
      xdoc_canon ind D = true /\ xsingle_blanks SepStart D = true /\ xdoc_terminated D = true) /\
   W R = Ok R.
 Print Assumptions C07_error_free_full.
+
+(* the reported content of the result without any reference to how an entry is rebuilt: the
+   paragraphs of the input (groups of d_groups) in the stable order of the paragraph comparator, each
+   with the fields it had (groups of p_groups; names and values as reported, epair) in the stable
+   order of the field comparator *)
+Theorem C07_error_free_content : forall s t ind iel mll psort esort, from_str s = Ok t -> ind_pos ind ->
+  esort_ok ind iel mll esort ->
+  doc_items t = map (fun g => flat_map (fun e => epair (snd e)) (fst (p_groups (children (snd g)) [])))
+                    (fst (d_groups (children t) [])) /\
+  doc_items (d_out ind iel mll psort esort (children t)) =
+    map (fun g => flat_map (fun e => epair (snd e)) (sort_opt (option_map on_snd esort) (fst (p_groups (children (snd g)) []))))
+        (sort_opt (option_map on_snd psort) (fst (d_groups (children t) []))).
+Proof. exact error_free_content. Qed.
+Check C07_error_free_content : forall s t ind iel mll psort esort, from_str s = Ok t -> ind_pos ind ->
+  esort_ok ind iel mll esort ->
+  doc_items t = map (fun g => flat_map (fun e => epair (snd e)) (fst (p_groups (children (snd g)) [])))
+                    (fst (d_groups (children t) [])) /\
+  doc_items (d_out ind iel mll psort esort (children t)) =
+    map (fun g => flat_map (fun e => epair (snd e)) (sort_opt (option_map on_snd esort) (fst (p_groups (children (snd g)) []))))
+        (sort_opt (option_map on_snd psort) (fst (d_groups (children t) []))).
+Print Assumptions C07_error_free_content.
 
 (* the field step of 14, explicitly: what rebuild_value makes of ANY field the reader accepts
    (XWrapP.x_ws_field: the case analysis of WrapSpec.rebuild_field with CR line ends, blanks before the
